@@ -12,7 +12,7 @@ MaxOf(S) == CHOOSE x \in S : \A y \in S : y <= x
 Put(f, k, v) == [x \in (DOMAIN f) \cup {k} |-> IF x = k THEN v ELSE f[x]]
 
 \* returns [why, accepted]
-Win == IF -1 \in DOMAIN sent THEN sent[-1] ELSE 32
+Win == IF <<-1, -1>> \in DOMAIN sent THEN sent[<<-1, -1>>] ELSE 32
 \* the window's verdict on a genuine message with number p that has not been accepted before: above everything accepted so far, or not further below
 \* the highest accepted number than the window reaches (kept one short of the window size: the exact edge is not this rule's business)
 MustAccept(p) == p \notin accepted /\ (accepted = {} \/ p > MaxOf(accepted) \/ MaxOf(accepted) - p < Win)
@@ -31,7 +31,7 @@ OnStep(e) ==
   THEN IF e.handled = 1 /\ e.n \in accepted THEN [why |-> "C15:replayed-request-accepted-again", acc |-> accepted]
        \* the captured bytes are genuine: when they were held back in the network this is their first arrival - forgeries in between change nothing
        \* (with Appendix B.1.2 the very first arrival at a recipient is challenged with 4.01 + Echo instead of being handed over)
-       ELSE IF e.handled = 0 /\ (accepted # {} \/ sent[-2] = 0) /\ MustAccept(e.n)
+       ELSE IF e.handled = 0 /\ (accepted # {} \/ sent[<<-2, -2>>] = 0) /\ MustAccept(e.n)
             THEN [why |-> "C15:delayed-genuine-request-rejected-although-never-accepted-before", acc |-> accepted]
        ELSE [why |-> "", acc |-> IF e.handled = 1 THEN accepted \cup {e.n} ELSE accepted]
   ELSE IF e.kind = "held" THEN [why |-> "", acc |-> accepted]
@@ -44,13 +44,14 @@ Init == /\ l = 1 /\ rej = << >> /\ cur = -1 /\ skip = TRUE /\ accepted = {} /\ s
 Consume ==
   /\ l <= Len(TraceLog)
   /\ LET e == TraceLog[l] IN
-     CASE e.e = "Reset" -> /\ cur' = e.id /\ skip' = FALSE /\ accepted' = {} /\ sent' = [x \in {-1, -2} |-> IF x = -1 THEN e.win ELSE IF e.b12 THEN 1 ELSE 0] /\ stepPivs' = << >>      \* (key -1 carries the replay window size of the execution)
+     CASE e.e = "Reset" -> /\ cur' = e.id /\ skip' = FALSE /\ accepted' = {} /\ sent' = [x \in {<<-1, -1>>, <<-2, -2>>} |-> IF x = <<-1, -1>> THEN e.win ELSE IF e.b12 THEN 1 ELSE 0] /\ stepPivs' = << >>      \* (key -1 carries the replay window size of the execution)
                            /\ nexec' = nexec + 1 /\ lastSaved' = 0 /\ restartFloor' = 0 /\ nonces' = [x \in {} |-> 0] /\ UNCHANGED <<rej, nsteps>>
        [] e.e = "Piv" /\ ~skip ->
-            IF e.piv \in DOMAIN sent /\ sent[e.piv] # e.sig
+            \* (partial IVs go up to 2^40: the key is the number in two halves, e.piv is the number itself where it fits TLC's integers, else -1)
+            IF <<e.ph, e.pl>> \in DOMAIN sent /\ sent[<<e.ph, e.pl>>] # e.sig
             THEN /\ rej' = Append(rej, [id |-> cur, line |-> l, why |-> "C15:partial-iv-used-for-two-different-messages"]) /\ skip' = TRUE
                  /\ UNCHANGED <<cur, accepted, sent, stepPivs, nexec, nsteps, lastSaved, restartFloor, nonces>>
-            ELSE /\ sent' = Put(sent, e.piv, e.sig) /\ stepPivs' = IF e.piv \in DOMAIN sent THEN stepPivs ELSE Append(stepPivs, e.piv)
+            ELSE /\ sent' = Put(sent, <<e.ph, e.pl>>, e.sig) /\ stepPivs' = IF <<e.ph, e.pl>> \in DOMAIN sent THEN stepPivs ELSE Append(stepPivs, e.piv)
                  /\ UNCHANGED <<rej, cur, skip, accepted, nexec, nsteps, lastSaved, restartFloor, nonces>>
        [] e.e = "Aead" /\ ~skip ->
             \* RFC 8613 section 5.2 / 7.2.1: a (key, nonce) pair protects ONE message.  Protecting the same message again (same AAD and
